@@ -269,9 +269,9 @@ pub(crate) mod verif_responder {
     c09_batch!(c09_batch_classic_k3, 3, 64, 4, 64, 560, Version::Google, false, 0, 13);
 
     //@ family c09_light props=C09 mode=strict mod=responder::verif_responder needs=src/message.rs,src/merkle.rs,src/key/online.rs,src/key/mod.rs,src/grease.rs,src/stats/aggregated.rs,src/stats/mod.rs,src/sign.rs must_cover=COVER:batch-end timeout=900
-    //@ harness c09_light_classic_k2_same_nonce tier=quick shape="classic, batch of 2 with identical nonces from two addresses: count, destination, nonce, index only" required=no
+    //@ harness c09_light_classic_k2_same_nonce tier=thorough shape="classic, batch of 2 with identical nonces from two addresses: count, destination, nonce, index only" required=no
     c09_light!(c09_light_classic_k2_same_nonce, 2, 64, 4, 64, 496, Version::Google, true, 0, 12);
-    //@ harness c09_light_ietf_k2 tier=quick shape="IETF, batch of 2, second send fails: count, destination, nonce, index only" required=no
+    //@ harness c09_light_ietf_k2 tier=thorough shape="IETF, batch of 2, second send fails: count, destination, nonce, index only" required=no
     c09_light!(c09_light_ietf_k2, 2, 32, 8, 32, 428, Version::RfcDraft13, false, 2, 12);
 
     // ------------------------------------------------------------------ C07: no amplification
@@ -321,7 +321,13 @@ pub(crate) mod verif_responder {
                 Version::Google => 48 + 64 + nonce.len() + 100 + 152 + 4,
                 Version::RfcDraft13 => 12 + 48 + 64 + nonce.len() + 96 + 152 + 4,
             };
-            vassert!(reply_len <= 1024, "VERIF:C07:accepted-nonce-length-cannot-make-the-reply-longer-than-the-request");
+            let fits = reply_len <= 1024;
+            vassert!(fits, "VERIF:C07:accepted-nonce-length-cannot-make-the-reply-longer-than-the-request");
+            if !fits {
+                // do not also push an over-long nonce through the responder (symbolic execution would
+                // explore that branch regardless of the failed assertion)
+                return;
+            }
             let seed = [7u8; 32];
             let mut r = mk_responder(version, &seed, 0, [0u8; 16]);
             let mut stats: Box<dyn ServerStats> = Box::new(AggregatedStats::new());
@@ -382,4 +388,84 @@ pub(crate) mod verif_responder {
         vassert!(classic <= req, "VERIF:C07:classic-reply-fits-in-request-for-every-depth");
         vassert!(ietf <= req, "VERIF:C07:ietf-reply-fits-in-request-for-every-depth");
     }
+
+    // ------------------------------------------------------------------ C09: pairing, with the expensive parts stubbed
+    /// make_srep stub for the pairing harness: a fixed two-field result (the signature and SREP
+    /// contents are the subject of c11_srep / c09_batch, not of the pairing)
+    pub fn stub_make_srep(_k: &mut OnlineKey, _v: Version, _now: SystemTime, _root: &[u8]) -> RtMessage {
+        let mut m = RtMessage::with_capacity(2);
+        m.add_field(Tag::SIG, &[0u8; 4]).unwrap();
+        m.add_field(Tag::SREP, &[0u8; 4]).unwrap();
+        m
+    }
+
+    /// K requests with 4-byte nonces (send_responses itself does not restrict nonce lengths) in one
+    /// batch: exactly K datagrams, the i-th to the i-th source address, echoing the i-th nonce with
+    /// INDX = i -- also when nonces are identical.  Everything else about the reply is left to c09_batch.
+    pub fn pairing_body<const K: usize>(version: Version, same_nonce: bool) {
+        dalek::model_reset();
+        ring::rand::model_reset(None);
+        ring::digest::model_reset(false);
+        mio::model_reset();
+        let mut nonces: [[u8; 4]; K] = [[0u8; 4]; K].map(|_| vany_bytes::<4>());
+        if same_nonce {
+            nonces[1] = nonces[0];
+        }
+        let seed = [9u8; 32];
+        let mut r = mk_responder(version, &seed, 0, [0u8; 16]);
+        r.cert_bytes = vec![0u8; 4];
+        let mut stats: Box<dyn ServerStats> = Box::new(AggregatedStats::new());
+        let mut sock = UdpSocket::model();
+        r.reset();
+        let mut i = 0;
+        while i < K {
+            match version {
+                Version::Google => r.add_classic_request(nonces[i].to_vec(), addr(i)),
+                Version::RfcDraft13 => r.add_ietf_request(&nonces[i], nonces[i].to_vec(), addr(i)),
+            }
+            i += 1;
+        }
+        r.send_responses(&mut sock, &mut stats);
+        let w = mio::world();
+        vassert!(w.tx.len() == K, "VERIF:C09:exactly-one-datagram-per-accepted-request");
+        let frame = if version == Version::RfcDraft13 { 12 } else { 0 };
+        let mut j = 0;
+        while j < K {
+            if j < w.tx.len() {
+                let (ref bytes, to, _ok) = w.tx[j];
+                vassert!(to == addr(j), "VERIF:C09:reply-goes-to-the-address-its-request-came-from");
+                // reply = {SIG 4, NONC 4, PATH d*W, SREP 4, CERT 4, INDX 4}: header 48 bytes
+                let nonc_at = frame + 48 + 4;
+                vassert!(bytes.len() >= nonc_at + 4, "VERIF:C09:reply-carries-a-nonce");
+                vassert!(le32(bytes, nonc_at) == u32::from_le_bytes(nonces[j]), "VERIF:C09:reply-echoes-its-own-requests-nonce");
+                let n = bytes.len();
+                vassert!(le32(bytes, n - 4) as usize == j, "VERIF:C09:index-is-the-requests-position-in-the-batch");
+            }
+            j += 1;
+        }
+        vcover!(true, "COVER:batch-end");
+        core::mem::forget(stats);
+        core::mem::forget(r);
+    }
+
+    macro_rules! c09_pairing {
+        ($name:ident, $k:expr, $ver:expr, $same:expr, $unwind:expr) => {
+            #[cfg_attr(kani, kani::proof)]
+            #[cfg_attr(kani, kani::unwind($unwind))]
+            #[cfg_attr(kani, kani::stub(<crate::error::Error as std::convert::From<std::io::Error>>::from, crate::verif_support::stub_error_from_io))]
+            #[cfg_attr(kani, kani::stub(std::time::SystemTime::now, crate::responder::verif_responder::stub_now))]
+            #[cfg_attr(kani, kani::stub(std::thread::current::current, crate::responder::verif_responder::stub_thread_current))]
+            #[cfg_attr(kani, kani::stub(std::hash::RandomState::new, crate::stats::verif_aggregated::stub_random_state_new))]
+            #[cfg_attr(kani, kani::stub(crate::key::OnlineKey::make_srep, crate::responder::verif_responder::stub_make_srep))]
+            #[cfg_attr(not(kani), test)]
+            fn $name() {
+                pairing_body::<$k>($ver, $same);
+            }
+        };
+    }
+    //@ family c09_pairing props=C09 mode=strict mod=responder::verif_responder needs=src/message.rs,src/merkle.rs,src/key/online.rs,src/key/mod.rs,src/grease.rs,src/stats/aggregated.rs,src/stats/mod.rs,src/sign.rs must_cover=COVER:batch-end timeout=900
+    //@ harness c09_pairing_classic_k2_same_nonce tier=quick shape="classic, 2 requests with identical 4-byte nonces from two addresses; make_srep stubbed" required=no
+    c09_pairing!(c09_pairing_classic_k2_same_nonce, 2, Version::Google, true, 12);
+    //@ harness c09_pairing_ietf_k2 tier=quick shape="IETF, 2 requests, distinct symbolic nonces; make_srep stubbed" required=no
+    c09_pairing!(c09_pairing_ietf_k2, 2, Version::RfcDraft13, false, 12);
 }
